@@ -135,17 +135,17 @@ theorem reject_at_first_bad (r0 : Rd) (s : Src) (cx : Ctx) (f0 : WFrame) (fs : L
   have hpl : plainOf (enter r0 f0.h) f0.wire = f0.plain := rfl
   have hdp : dataPlain (f0 :: fs) = plainOf (enter r0 f0.h) f0.wire ++ dataPlain fs := by
     simp [dataPlain, hdata0, hpl]
-  have hsync : Sync true r0.skipCheck st r0.maxFrame rest (enter r0 f0.h) s1 (dataPlain (f0 :: fs)) := by
+  have hsync : Sync true r0.skipCheck st r0.maxFrame rest (enter r0 f0.h) s1 (dataPlain (f0 :: fs)) fs := by
     rw [hdp]
     refine Sync.mid _ s1 f0.wire fs hc ?_ (by simp [enter, hfin0, st]) htail
     exact ⟨by simp [enter], by simp [enter, hu8], hb1, by simp [enter, hok0.len],
         by rw [hb1]; exact hwt, by simp [enter]; exact hok0.mwf, ht1⟩
   refine ⟨enter r0 f0.h, s1, hnext, rfl, ?_⟩
-  rcases reads_sync true r0.skipCheck st r0.maxFrame rest ks hpos _ s1 cx _ hsync with
+  rcases reads_sync true r0.skipCheck st r0.maxFrame rest ks hpos _ s1 cx _ _ hsync with
     ⟨out, e, r', s', hrd, hcase⟩ | ⟨ks1, k2, ks2, out1, r1, s2, hks, hrd1, hrem, hend⟩
   · left
     refine ⟨out, e, r', s', hrd, ?_, ?_⟩
-    · rcases hcase with ⟨_, rem', h1, _, _⟩ | ⟨_, h1, _⟩
+    · rcases hcase with ⟨_, rem', _, h1, _, _⟩ | ⟨_, h1, _⟩
       · exact ⟨rem', h1⟩
       · exact ⟨[], by rw [h1]; simp⟩
     · rcases hcase with ⟨h1, _⟩ | ⟨h1, _, _, _, _⟩
